@@ -106,7 +106,7 @@ func (e *Env) GetValue(symbol string) (reflect.Value, error) {
 	}
 
 	if e.parent == nil {
-		return NilValue, fmt.Errorf("undefined symbol '%s'", symbol)
+		return newNilValue(), fmt.Errorf("undefined symbol '%s'", symbol)
 	}
 
 	return e.parent.GetValue(symbol)
@@ -165,7 +165,7 @@ func (e *Env) Addr(symbol string) (reflect.Value, error) {
 		if v.CanAddr() {
 			return v.Addr(), nil
 		}
-		return NilValue, fmt.Errorf("unaddressable")
+		return newNilValue(), fmt.Errorf("unaddressable")
 	}
 	if e.externalLookup != nil {
 		v, err := e.externalLookup.Get(symbol)
@@ -173,11 +173,11 @@ func (e *Env) Addr(symbol string) (reflect.Value, error) {
 			if v.CanAddr() {
 				return v.Addr(), nil
 			}
-			return NilValue, fmt.Errorf("unaddressable")
+			return newNilValue(), fmt.Errorf("unaddressable")
 		}
 	}
 	if e.parent == nil {
-		return NilValue, fmt.Errorf("undefined symbol '%s'", symbol)
+		return newNilValue(), fmt.Errorf("undefined symbol '%s'", symbol)
 	}
 	return e.parent.Addr(symbol)
 }
